@@ -14,7 +14,7 @@
 #include "dsched.h"
 
 #define MAXU 96
-#define MAXP 10
+#define MAXP 16
 #define MAXX 8
 #define MAXO 8
 #define MAXOPS 96
@@ -58,6 +58,16 @@ typedef struct actor {
     int rheld[MAXO];     /* rwlock mode held: 0 none 1 rd 2 wr */
     int popped;          /* unit index last popped by this actor, -1 none */
     int skip_mutex, skip_depth;
+    /* life-cycle bookkeeping */
+    volatile int directed;     /* next start comes from a directed switch */
+    volatile int expect_pool;  /* pool it was last pushed to by create/revive, -1 unknown */
+    volatile int migr_pending; /* a migration request was accepted and not yet seen served */
+    volatile int cur_pool;     /* pool it is associated with according to the model */
+    volatile int exited;
+    volatile uint64_t cancel_step, cancel_ret_step;
+    volatile int slices;       /* number of times it (re)gained control, for C11 */
+    volatile int suspended;    /* between self-suspend call and its return */
+    volatile int resumes_issued, suspends_returned;
 } actor;
 
 typedef struct {
@@ -65,6 +75,7 @@ typedef struct {
     int access; /* 0 priv 1 spsc 2 mpsc 3 spmc 4 mpmc */
     int policy; /* user pool pop policy */
     int attached;
+    int sub; /* index of the stacked scheduler owning it, -1 if none */
     ABT_pool h;
 } vpool;
 
@@ -76,6 +87,7 @@ typedef struct {
     ABT_sched sh;
     int created, joined, freed;
     int late; /* created by an explicit op, not at start-up */
+    int rank, sched_changed;
 } vxs;
 
 struct globals {
@@ -83,13 +95,15 @@ struct globals {
     uint64_t seed;
     int strat, pct_d, native, want_hist, mode, drain;
     unsigned mask, spin;
-    uint64_t pct_len, step_limit;
+    uint64_t pct_len, step_limit, tick;
     actor main_a, ext[MAXEXT], unit[MAXU];
     int next, nunit;
     vpool pool[MAXP];
     int npool;
     vxs xs[MAXX];
     int nxs;
+    vxs sub[MAXX]; /* stacked schedulers */
+    int nsub;
     int nmutex, ncond, nbarrier, neventual, nfuture, nrwlock, nkey;
     int mutex_kind[MAXO], cond_kind[MAXO], barrier_n[MAXO], ev_nbytes[MAXO],
         fut_n[MAXO], fut_cb[MAXO], key_dtor[MAXKEY];
